@@ -32,6 +32,17 @@ Proof. exact off_by_one_refuted. Qed.
 Print Assumptions C06_off_by_one_refuted.
 
 (* the shape of the source the model's scope exit hard-codes, as found in the source now (regenerated on every run) *)
+(* a call that is rejected (its `when` is false) makes no shared step: wherever rejected calls are scheduled among the matching ones, and
+   however many there are, the same calls are admitted as without them *)
+Theorem C06_rejected_calls_never_change_admission : forall N sched, admitted N (run sched) = admitted N (run (filter is_rmw sched)).
+Proof. exact rejected_calls_never_change_admission. Qed.
+Print Assumptions C06_rejected_calls_never_change_admission.
+(* counting first and asking `when` afterwards (giving the slot back on rejection) is not the same thing: refuted with two threads *)
+Theorem C06_count_first_ask_later_refuted :
+  adm3 (run3 1 [(1,IncReject); (0,IncMatch); (1,GiveBack)]) = [] /\ refused3 (run3 1 [(1,IncReject); (0,IncMatch); (1,GiveBack)]) = [0]
+  /\ adm3 (run3 1 [(1,IncReject); (1,GiveBack); (0,IncMatch)]) = [0].
+Proof. exact count_first_ask_later_refuted. Qed.
+Print Assumptions C06_count_first_ask_later_refuted.
 From Inj Require Import SrcTieLife.
 Theorem C06_source_verdict_shape : src_verifier_compares_ne && src_verifier_silent_when_unwinding = true.
 Proof. exact src_verdict_shape. Qed.
